@@ -1,5 +1,49 @@
-"""py-sym legs of C03 (filled in with the CrossHair harnesses)."""
+"""py-sym legs of C03: kinetics functions, make_dxdtf and apply_reaction honour the flag of that very (species, cell)."""
+from .. import pysym
+
+
+def gen(tier, seed):
+    L = ["from harness.c01lib import *", ""]
+    conds = []
+
+    def add(fn, sig, body, pre, what, args, timeout=None, viol=None):
+        fn = "h_" + fn
+        L.extend(["def %s(%s) -> bool:" % (fn, args), '    """'] + ["    " + p for p in pre] + ["    post: _", '    """', "    return " + body, ""])
+        c = {"fn": fn, "what": what, "sig": sig, "structure": "chemostats"}
+        if timeout:
+            c["timeout"] = timeout
+        if viol:
+            c["viol"] = viol
+        conds.append(c)
+    maps = {"ab_grid2": [(0, 0, 1, 0), (0, 1, 0, 0), (1, 0, 0, 1)], "abc_pair": [(0, 0, 1, 0, 0, 1), (0, 1, 0, 0, 1, 0)]}
+    for name, ns, nc in (("ab_grid2", 2, 2), ("abc_pair", 3, 2)):
+        n = ns * nc
+        args = ", ".join("x%d: float" % k for k in range(n))
+        pre = " and ".join("0.001 < x%d < 1000" % k for k in range(n))
+        xs = "(%s)" % ", ".join("x%d" % k for k in range(n))
+        for m, chem in enumerate(maps[name] if tier != "quick" else maps[name][:2]):
+            for s in range(ns):
+                for i in range(nc):
+                    if tier == "quick" and name == "abc_pair" and (s + i) % 2:
+                        continue
+                    add("chem_%s_%d_%d_%d" % (name, m, s, i), "c03-kinetics-flag", "dspecies_ok(%r, %d, %d, %s, %r, True)" % (name, s, i, xs, chem), ["pre: " + pre],
+                        "with chemostat map %s: compute_dspeciesdt(species %d, cell %d) is exactly 0 if that very entry is flagged, else the law with flagged entries still acting as reactants / diffusion partners (%s)" % (chem, s, i, name),
+                        args, timeout=150 if tier == "quick" else 600, viol="the kinetics functions consult the wrong chemostat flag (not the one of that species in that cell)")
+    for chem in ((0, 1, 0), (1, 0, 1), (0, 0, 0)):
+        add("dxdtf_%s" % "".join(map(str, chem)), "c03-dxdtf-flag", "dxdtf_ok('abc1', (x0, x1, x2), %r)" % (chem,), ["pre: 0.001 < x0 < 1000 and 0.001 < x1 < 1000 and 0.001 < x2 < 1000"],
+            "make_dxdtf: flagged species have zero derivative, the others the law (map %s)" % (chem,), "x0: float, x1: float, x2: float", timeout=300)
+    add("apply_grid", "c03-apply-reaction", "apply_reaction_ok('ab_grid2', ((c0, c1, c2, c3)), 0, cell, n)", ["pre: 0 <= c0 <= 1 and 0 <= c1 <= 1 and 0 <= c2 <= 1 and 0 <= c3 <= 1 and 0 <= cell <= 1 and -2 <= n <= 3"],
+        "apply_reaction changes exactly the unflagged entries of that cell by n x net stoichiometry, for every flag map (grid)", "c0: int, c1: int, c2: int, c3: int, cell: int, n: int")
+    add("apply_graph", "c03-apply-reaction", "apply_reaction_ok('abc_pair', ((c0, c1, c2, c3, c4, c5)), 0, cell, n)",
+        ["pre: 0 <= c0 <= 1 and 0 <= c1 <= 1 and 0 <= c2 <= 1 and 0 <= c3 <= 1 and 0 <= c4 <= 1 and 0 <= c5 <= 1 and 0 <= cell <= 1 and -1 <= n <= 2"],
+        "apply_reaction with every flag map (graph)", "c0: int, c1: int, c2: int, c3: int, c4: int, c5: int, cell: int, n: int")
+    return "\n".join(L), conds
 
 
 def run(rec):
-    pass
+    rec.assume("Python legs: duck-typed symbolic state (see C01); chemostat maps from a catalogue that flags species >= 1 only, cell >= 1 only and mixed entries; apply_reaction is enumerated over EVERY flag map")
+    for fn in ("kinetics.compute_dspeciesdt (apply_chemostats)", "RDSystem.make_dxdtf", "RDSystem.apply_reaction"):
+        rec.encoded(fn)
+    text, conds = gen(rec.tier, rec.seed)
+    mod = pysym.write_module("hgen_C03", text)
+    pysym.run_auto(rec, mod, conds, default_timeout=300)
